@@ -255,6 +255,21 @@ class Gen:
                 ivs[-1]["blocks"][-1]["items"].append(
                     {"k": "bytes", "hex": "00" * n})
                 ivs[-1]["uninit"] = n
+                if rng.random() < 0.5:
+                    # ... and one or two whole blocks behind them (after the
+                    # interval has been split for rewriting such a block owns
+                    # a piece without any initialised byte)
+                    for _ in range(rng.choice([1, 1, 2])):
+                        ub = {"id": self.bid(), "code": False,
+                              "labels": [], "elabels": [], "items": [
+                                  {"k": "bytes",
+                                   "hex": "00" * rng.choice([1, 2, 4])}
+                                  for _ in range(rng.choice([2, 3]))]}
+                        ub["labels"].append(f"bss{ub['id']}")
+                        ivs[-1]["blocks"].append(ub)
+                        all_blocks.append(ub)
+                        ivs[-1]["uninit"] += sum(
+                            len(it["hex"]) // 2 for it in ub["items"])
             case["secs"].append({"name": name, "exec": False, "ivs": ivs})
         if code_blocks and rng.random() < 0.5:
             case["entry"] = rng.choice(code_blocks)["id"]
@@ -616,6 +631,13 @@ class Gen:
                     p = self.patch(eid, True, self.fn_of.get(b["id"]))
                 elif rng.random() < self.knobs.get("data_bytes_p", 0.7):
                     p = {"bytes": rng.randbytes(rng.randrange(1, 6)).hex()}
+                    if op == "rep" and cnt and rng.random() < 0.35 and all(
+                            it["k"] == "bytes" for it in
+                            b["items"][i:i + cnt]):
+                        # exactly as many bytes as it replaces
+                        p = {"bytes": rng.randbytes(sum(
+                            len(it["hex"]) // 2
+                            for it in b["items"][i:i + cnt])).hex()}
                 else:
                     p = {"lines": [{"k": "bytes",
                                     "hex": rng.randbytes(
